@@ -14,8 +14,8 @@
      shape               scope count, and the ids/names/order of the slots of every scope
      eval_indices, store_idx, mutate_recv
                          the sub-steps of runtime.rs assign_index / get_mutable_array as
-                         top-level functions (convertible with the local definitions inside
-                         Lang.eval / Lang.exec; ArrProofs shows the equations by reflexivity)
+                         named functions (Lang.indices_with / mutate_with at the evaluator of
+                         the next lower fuel; ArrProofs shows the equations by computation)
      pure_expr           expressions without any call: evaluating them cannot touch the
                          environment
      mut_base            the variable a mutating statement with call-free operands writes *)
@@ -90,23 +90,11 @@ Section RunSpec.
 Variable P : plan.
 Variable eps : f64.
 
-(* eval_index_value over the flattened index expressions, left to right *)
+(* eval_index_value over the flattened index expressions, left to right; argument lists *)
 Definition eval_indices (n : nat) : list expr -> st -> M (list Z * st) :=
-  fix go (es : list expr) (s : st) : M (list Z * st) :=
-    match es with
-    | [] => OkM ([], s)
-    | e :: r => bindM (eval P eps n e s) (fun '(iv, s1) =>
-                bindM (lift (index_value iv)) (fun i =>
-                bindM (go r s1) (fun '(is, s2) => OkM (i :: is, s2))))
-    end.
-
+  indices_with (eval P eps n).
 Definition evals (n : nat) : list expr -> st -> M (list value * st) :=
-  fix go (es : list expr) (s : st) : M (list value * st) :=
-    match es with
-    | [] => OkM ([], s)
-    | e :: r => bindM (eval P eps n e s) (fun '(v, s1) =>
-                bindM (go r s1) (fun '(vs, s2) => OkM (v :: vs, s2)))
-    end.
+  evals_with (eval P eps n).
 
 (* the store of `target get value`, once value and indices are evaluated *)
 Definition store_idx (vn : name) (vl : option Z) (path : list Z) (v : value) (s : st)
@@ -147,16 +135,6 @@ Definition mutate_recv (n : nat) (o : expr) (op : mutop) (s : st) : M (value * s
   | _ => ErrM TypeMis
   end.
 
-(* parameter slots of a call: one fresh slot per parameter, holding the argument value *)
-Definition param_slots (fd : fdef) : list name -> list value -> Z -> list slot -> list slot :=
-  fix mk (ps : list name) (vs : list value) (k : Z) (acc : list slot) : list slot :=
-    match ps, vs with
-    | p :: ps', v :: vs' =>
-        mk ps' vs' (k + 1)
-           ({| s_id := match f_id fd with Some _ => Some (f_lstart fd + k) | None => None end;
-               s_name := p; s_val := v |} :: acc)
-    | _, _ => acc
-    end.
 End RunSpec.
 
 (* ---------- call-free expressions ---------- *)
